@@ -65,7 +65,18 @@ def memo_policy(ctx, g, wr, key):
                               % (g.qualname.split(".", 3)[-1], m_.group(1)))
                 return True
     if "__dict__.setdefault" in (wr.why or "") or "__dict__.get" in (wr.why or ""):
-        # an attribute created on demand through the instance dictionary: by construction one the reviewed class does not have
+        # an attribute created on demand through the instance dictionary: by construction one the reviewed class does not have;
+        # the table is known by a local name here, and the stale-memo criteria are asked about that name
+        ml_ = _re.match(r"^([A-Za-z_]\w*)[\[.]", recv)
+        if ml_ is not None:
+            try:
+                sm_ = sym.summarize(sym.expanded(ctx, g), sym.Canon(sym.make_const_of(ctx, g), None, None), keep={ml_.group(1)})
+                import re as _r2
+                locs_ = {ml_.group(1)} | {m_.group(0) for it_ in sm_.items for m_ in [_r2.match(r"^(_v\d+)(?=\[)", it_.head)] if m_ and it_.kind == "effect"}
+                if sym.stale_memo(sm_, locs_):
+                    return False
+            except Exception:
+                pass
         ctx.undecided(key, ctx.where(g, wr.node), "%s keeps a table it creates on demand in the instance dictionary (%s), added since the review: a memo; whether it can go stale is not read here" % (g.qualname.split(".", 3)[-1], (wr.why or "")[:60]))
         return True
     m2_ = _re.match(r"^([A-Za-z_]\w*)[\[.]", recv)
